@@ -1016,7 +1016,8 @@ def run(chk, replay=None):
     # damped sinusoids and sums through the forward transform and back (the real code combines them into one fraction)
     for pcs in ([Piece((1, 0), 'cos', Fraction(3, 2), 'expu:0:2:0', 1, 0)], [Piece((1, 0), 'sin', 1, 'expu:0:1:0', 1, 0)],
                 [Piece((1, 0), 'none', 0, 'expu:0:1:0', 1, 0), Piece((1, 0), 'none', 0, 'expu:0:2:0', 1, 0)],
-                [Piece((1, 0), 'none', 0, 'expu:0:1:0', 1, 0), Piece((-1, 0), 'none', 0, 'expu:0:3:0', -1, 0)]):
+                [Piece((1, 0), 'none', 0, 'expu:0:1:0', 1, 0), Piece((-1, 0), 'none', 0, 'expu:0:3:0', -1, 0)],
+                [Piece((1, 0), 'sin', 1, 'step', 1, 0)], [Piece((1, 0), 'cos', 2, 'step', 1, 0)]):
         for dom in ('f', 'omega'):
             chk.count('deterministic', 'damped-sinusoid/sum roundtrip from ' + dom)
             one_case('fwd', dom, pcs, 'rational-roundtrip', with_roundtrip=True)
